@@ -92,6 +92,8 @@ def scenarios(draw, max_sims=5, min_sims=1, types=TYPES, allow_mem=True, allow_w
             sp["beh"].pop("future", None)
         if sensitive:
             sp["beh"]["sensitive"] = True
+        if typ[s] == "hybrid" and draw(st.integers(0, 5)) == 0:
+            sp["via_children"] = True     # connected entities are children of a non-public model (hierarchical create())
         sims.append(sp)
     rank = draw(st.permutations(sids))
     rk = {s: i for i, s in enumerate(rank)}
@@ -387,6 +389,13 @@ def micro_scenarios():
                   dict(_c("S", "eo", "T", "ti"), **{"async": True}), _c("O", "eo", "T", "ti"), _c("S", "eo", "O", "ti")],
         "async": [["S", "T"]],
         "initial_events": {"S": 0}, "until": 2}
+    # hierarchical entities: the connected entities of the hybrid simulators are children of a non-public model
+    out["child_entities_of_private_model"] = {
+        "tree": ["A", "B", "C"],
+        "sims": [dict(_sim("A", "hybrid", steps=[2], emit=[1]), via_children=True),
+                 dict(_sim("B", "hybrid", steps=[0], emit=[1]), via_children=True), _sim("C", "time-based", steps=[1])],
+        "conns": [_c("A", "eo", "B", "ti"), _c("A", "po", "B", "mi"), _c("B", "po", "C", "mi"), _c("B", "eo", "A", "ti", shift=1)],
+        "until": 7}
     # value shapes: measurements that are falsy JSON values (an explicit None, 0, "", False, [], {}) between ordinary
     # ones, read by a faster and a slower consumer
     out["falsy_measurements"] = {
